@@ -72,15 +72,25 @@ def pow2(x):
 
 
 def make_fn(spec):
-    kind, a, b, c = spec
+    kind, a, b, c = spec[:4]
+    scalar_only = len(spec) > 4 and bool(spec[4])
     a, b, c = float(Fraction(*a)), float(Fraction(*b)), float(Fraction(*c))
     if kind == "affine":
-        return lambda t: a * t + b
-    if kind == "quad":
-        return lambda t: a * (t * t) + b
-    if kind == "abs":
-        return lambda t: a * np.abs(t - c) + b
-    raise ValueError(kind)
+        f = lambda t: a * t + b
+    elif kind == "quad":
+        f = lambda t: a * (t * t) + b
+    elif kind == "abs":
+        f = lambda t: a * np.abs(t - c) + b
+    else:
+        raise ValueError(kind)
+    if not scalar_only:
+        return f
+
+    def g(t):
+        # a function written for one time at a time (math.*, float(t), `if t < 0`): it rejects arrays, so the
+        # signal has to evaluate it sample by sample
+        return f(float(t))
+    return g
 
 
 def vt_input(code, form, Signal):
@@ -157,13 +167,23 @@ class Impl:
         if k == "newarr":
             E.append(np.array([float(Fraction(*q)) for q in op["xs"]], dtype=float))
             return None
+        def typed(a, how):
+            """the same numbers handed over as the caller's float array, a list of floats, an integer array
+            (np.arange-like) or a list of Python ints"""
+            if how == "int":
+                return a.astype(int)
+            if how == "intlist":
+                return [int(x) for x in a]
+            if how == "list":
+                return a.tolist()
+            return a
         if k == "mk":
             t = E[op["ta"]]
-            targ = t.tolist() if op.get("aslist") else t
+            targ = typed(t, op.get("ttype") or ("list" if op.get("aslist") else None))
             vt = vt_input(op["vt"], op.get("vtform", "enum"), self.Signal)
             if op["cls"] == 0:
                 v = E[op["va"]]
-                varg = v.tolist() if op.get("aslist") else v
+                varg = typed(v, op.get("vtype") or ("list" if op.get("aslist") else None))
                 return (self.SubSignal if op["sub"] else self.Signal)(targ, varg, vt)
             if op["cls"] == 1:
                 return (self.SubEmpty if op["sub"] else self.EmptySignal)(targ, vt)
@@ -190,7 +210,7 @@ class Impl:
             return x
         if k == "with_times":
             t = E[op["ta"]]
-            return O[op["i"]].with_times(t.tolist() if op.get("aslist") else t)
+            return O[op["i"]].with_times(typed(t, op.get("ttype") or ("list" if op.get("aslist") else None)))
         if k == "shift":
             return O[op["i"]].shift(self.scalar(op["q"], op.get("qform")))
         if k == "settype":
@@ -490,6 +510,20 @@ def oracle(impl, op, before, outc, fnspecs={}, sem_before=None, sem_after=None):
             was = (before["times"][i], before["values"][i], before["vt"][i], before["bufs"][i])
             if was[1] is not None and now != was:
                 bad.append("operand/bystander object %d was modified by %s" % (i, k))
+    if k == "mk" and new is not None:
+        # the constructor keeps the given times and holds the given values zero-padded / truncated to that length,
+        # whatever the types of the arguments (float arrays, lists, integer arrays, lists of ints)
+        t_in = before["ext"][op["ta"]]
+        if fr_list(new.times) != t_in:
+            bad.append("constructed signal does not keep the given times")
+        if op["cls"] == 0:
+            v_in = before["ext"][op["va"]]
+            want = (v_in + [Fraction(0)] * len(t_in))[:len(t_in)]
+            if fr_list(new.values) != want:
+                bad.append("constructed signal does not hold the given values zero-padded / truncated to its grid "
+                           "(argument types: times %s, values %s)" % (op.get("ttype") or "float", op.get("vtype") or "float"))
+        if op["cls"] == 1 and any(v != 0 for v in fr_list(new.values)):
+            bad.append("constructed empty signal is not zero")
     if k == "radd" and op["k"] == 0 and outc != (1, op["i"]):
         bad.append("0 + signal did not return the signal itself")
     if k == "add":
@@ -620,6 +654,21 @@ class Gen:
 
     def is_dec(self, o):
         return self.is_fun(o) and isinstance(o.times, np.ndarray) and self.dec_ok(o.times)
+
+    def int_types(self, op):
+        """integer-typed arguments (list of ints, np.arange-like int array) where the numbers are integers:
+        the time grid always may be integer typed; values only when they are shorter than the grid (they are
+        then zero-padded into a float array; an integer value array that is kept would refuse float scaling)"""
+        r, E = self.rng, self.impl.ext
+        isint = lambda a: len(a) > 0 and all(float(x).is_integer() and abs(x) < 2 ** 40 for x in a)
+        if isint(E[op["ta"]]) and r.random() < 0.5:
+            op["ttype"] = r.choice(["int", "intlist"])
+        if op["op"] == "mk" and op["cls"] == 0 and isint(E[op["va"]]) and len(E[op["va"]]) < len(E[op["ta"]]) and r.random() < 0.5:
+            op["vtype"] = r.choice(["int", "intlist"])
+
+    @staticmethod
+    def int_times(o):
+        return isinstance(o.times, np.ndarray) and o.times.dtype.kind in "iu"
 
     def perturbed(self, base):
         """a grid of the same length that differs MINUTELY from an existing one: one ulp in one sample, a tiny
@@ -753,6 +802,9 @@ class Gen:
             if not nice:
                 return {"op": "newarr", "xs": [q_of(x) for x in self.values(r.choice([2, 3, 4]))]}
             op["va"] = r.choice(nice)
+            if c == 2 and r.random() < 0.35:
+                op["fn"] = list(op["fn"][:4]) + [True]          # non-vectorisable backing function
+            self._int_typing = True
             if r.random() < 0.4 and O:
                 # a grid that is almost, but not exactly, the grid of an existing signal
                 near = [a for a in range(len(E)) if any(self.near(E[a], p.times) for p in O)]
@@ -764,7 +816,8 @@ class Gen:
                     op["fn"][2] = q_of(0)      # tiny times: no constant term, values keep few bits
                     op["fn"][3] = q_of(0)
             if c == 2 and self.dec_ok(E[op["ta"]]):
-                op["fn"] = [r.choice(["affine", "abs"]), q_of(r.choice([1, -1, 2, Fraction(1, 2)])), q_of(0), q_of(0)]
+                op["fn"] = [r.choice(["affine", "abs"]), q_of(r.choice([1, -1, 2, Fraction(1, 2)])), q_of(0), q_of(0)] + \
+                    ([True] if r.random() < 0.3 else [])
                 return op
             if c == 2 and not self.fun_ok(E[ta]):
                 oks = [a for a in range(len(E)) if self.fun_ok(E[a])]
@@ -773,6 +826,7 @@ class Gen:
                 op["ta"] = r.choice(oks)
             if c == 2 and len(E[op["ta"]]) < 2:
                 return None
+            self.int_types(op)
             return op
         i = r.randrange(len(O))
         o = O[i]
@@ -799,7 +853,7 @@ class Gen:
             # powers of two only: every value stays the exactly scaled float
             return {"op": k, "i": i, "q": q_of(r.choice([Fraction(2), Fraction(-1), Fraction(1, 2), Fraction(4), Fraction(1), Fraction(-2)])), "qform": qform}
         if dec and k == "shift":
-            return {"op": "shift", "i": i, "q": q_of(0), "qform": qform}
+            return {"op": "shift", "i": i, "q": q_of(0), "qform": "int" if self.int_times(o) else qform}
         if dec and k == "setbuf":
             dtf = float(o.times[1] - o.times[0])
             return {"op": "setbuf", "i": i, "lead": q_of(frac(r.choice([0, 1, 3, 5, 10]) * dtf)), "trail": q_of(frac(r.choice([0, 2, 3, 6]) * dtf))}
@@ -819,7 +873,9 @@ class Gen:
                 cands.append(a)
             if not cands:
                 return None
-            return {"op": "with_times", "i": i, "ta": r.choice(cands), "aslist": r.random() < 0.15}
+            wop = {"op": "with_times", "i": i, "ta": r.choice(cands), "aslist": r.random() < 0.15}
+            self.int_types(wop)
+            return wop
         if k in ("add", "addmatch"):
             # a sum involving a decimal-grid FunctionSignal on the same grid would add rounded numbers
             pass
@@ -900,7 +956,9 @@ class Gen:
                 cands = list(range(len(E)))
             if not cands:
                 return None
-            return {"op": "with_times", "i": i, "ta": r.choice(cands), "aslist": r.random() < 0.15}
+            wop = {"op": "with_times", "i": i, "ta": r.choice(cands), "aslist": r.random() < 0.15}
+            self.int_types(wop)
+            return wop
         if k == "shift":
             q = Fraction(r.randint(-12, 12), r.choice([1, 1, 2, 4, 8]))
             if self.tspan(o.times) > 38:
@@ -911,6 +969,9 @@ class Gen:
                 q = Fraction(r.randint(-12, 12)) * abs(frac(o.times[1]) - frac(o.times[0]))   # shift by whole samples
             if any(Fraction(float(x) + float(q)) != frac(x) + q for x in o.times):
                 q = Fraction(0)          # e.g. a grid with a one-ulp perturbation: the shifted times would round
+            if self.int_times(o):
+                # an integer time array cannot take a float in place (NumPy casting rule, not modelled): whole steps
+                return {"op": "shift", "i": i, "q": q_of(Fraction(int(q))), "qform": "int"}
             return {"op": "shift", "i": i, "q": q_of(q), "qform": qform}
         if k == "settype":
             return {"op": "settype", "i": i, "vt": r.randrange(4), "vtform": r.choice(["enum", "int", "str", "none"])}
@@ -933,7 +994,8 @@ class Gen:
             kk = r.randrange(n + 1) if self.malformed or n == 0 else r.randrange(n)
             if self.is_fun(o):
                 return None
-            return {"op": "poketimes", "i": i, "k": kk, "q": q_of(Fraction(r.randint(-40, 40), r.choice([1, 2, 4])))}
+            return {"op": "poketimes", "i": i, "k": kk,
+                    "q": q_of(Fraction(r.randint(-40, 40), 1 if self.int_times(o) else r.choice([1, 2, 4])))}
         if k == "pokevals":
             if I.cls_of(o)[0] != 0:
                 return None
@@ -950,7 +1012,7 @@ def cq(q):
 
 
 def cfn(fn):
-    kind, a, b, c = fn
+    kind, a, b, c = fn[:4]
     if kind == "affine":
         return "(fun t : Q => %s * t + %s)" % (cq(a), cq(b))
     if kind == "quad":
@@ -1250,6 +1312,89 @@ def exhaustive_near():
     return hs
 
 
+def regrid_suite():
+    """every source class x every relation between the source grid and the target grid (same grid; same length
+    and end points but other interior samples; contained; wider; finer; disjoint on either side; one point; empty;
+    half a sample off), for dyadic grids and -- function-backed signals -- decimal-step grids with windows starting
+    k samples inside the source (written independently as np.linspace between round decimals) and set_buffers(k*dt);
+    vectorised and non-vectorisable backing functions, before and after a shift"""
+    F = Fraction
+    hs = []
+    src = [F(0), F(1), F(2), F(4), F(5)]
+    usrc = [F(0), F(1, 2), F(1), F(3, 2), F(2), F(5, 2)]
+    vals = [F(3), F(-1, 2), F(4), F(1), F(2), F(-3)]
+    def targets(g):
+        lo, hi = g[0], g[-1]
+        inner = sorted(set([lo, hi] + [lo + (hi - lo) * F(k, 8) for k in (1, 3, 6)] ))
+        same_ends = [lo] + [x + F(1, 4) for x in g[1:-1]] + [hi]
+        return [list(g), same_ends, [g[1], g[1] + F(1, 4), g[2], g[-2]], [lo - 1, lo] + list(g[1:]) + [hi + F(1, 2), hi + 2],
+                inner, [lo - 3, lo - 2, lo - F(3, 2)], [hi + F(1, 2), hi + 1], [g[2]], [], [x + F(1, 4) for x in g]]
+    for cls in range(3):
+        for sub in (False, True):
+            g = usrc if cls == 2 else src
+            for fnv in ([["affine", [2, 1], [1, 1], [0, 1]], ["abs", [1, 1], [-1, 2], [1, 1], True], ["quad", [1, 1], [0, 1], [0, 1], True]] if cls == 2 else [None]):
+                ops = [{"op": "newarr", "xs": [q_of(x) for x in g]}, {"op": "newarr", "xs": [q_of(x) for x in vals[:len(g)]]},
+                       {"op": "mk", "cls": cls, "sub": sub, "ta": 0, "va": 1, "vt": 1, "vtform": "enum",
+                        "fn": fnv or ["affine", [1, 1], [0, 1], [0, 1]]}]
+                for n_t, t in enumerate(targets(g)):
+                    if cls == 2 and len(t) < 2 and len(t) != 0:
+                        continue
+                    ops.append({"op": "newarr", "xs": [q_of(x) for x in t]})
+                    ops.append({"op": "with_times", "i": 0, "ta": 2 + n_t if not (cls == 2) else len([o for o in ops if o["op"] == "newarr"]) - 1})
+                # the same after a shift of the source by 3/4 (function-backed: the time origin moves along)
+                ops.append({"op": "shift", "i": 0, "q": [3, 4], "qform": "float"})
+                ops.append({"op": "with_times", "i": 0, "ta": 0})
+                ops.append({"op": "with_times", "i": 0, "ta": 2})
+                hs.append(ops)
+    # decimal steps (function-backed, rounding-free functions a*t / a*|t|)
+    for dt, j0, n in ((0.1, -10, 19), (0.2, -5, 17), (1e-9, -10, 19)):
+        srcg = np.linspace(float(np.round(j0 * dt, 14)), float(np.round((j0 + n - 1) * dt, 14)), n)
+        for fnv in (["affine", [1, 1], [0, 1], [0, 1]], ["abs", [2, 1], [0, 1], [0, 1], True]):
+            ops = [{"op": "newarr", "xs": [q_of(frac(x)) for x in srcg]},
+                   {"op": "mk", "cls": 2, "sub": False, "ta": 0, "va": 0, "vt": 0, "vtform": "enum", "fn": fnv}]
+            na = 1
+            for k0 in (3, 5, 6, 10):
+                m = n - k0 - 2
+                if m < 3:
+                    continue
+                win = np.linspace(float(np.round((j0 + k0) * dt, 14)), float(np.round((j0 + k0 + m - 1) * dt, 14)), m)
+                if frac(win[0] - srcg[0]) != frac(win[0]) - frac(srcg[0]) or frac(srcg[-1] - win[-1]) != frac(srcg[-1]) - frac(win[-1]) \
+                        or win[0] < srcg[0] or win[-1] > srcg[-1]:
+                    continue        # the buffers would not be the exact differences
+                ops.append({"op": "newarr", "xs": [q_of(frac(x)) for x in win]})
+                ops.append({"op": "with_times", "i": 0, "ta": na})
+                na += 1
+            for k in (3, 5):
+                ops.append({"op": "copy", "i": 0})
+                ncopy = 1 + sum(1 for o in ops if o["op"] in ("with_times", "copy")) - 1
+                ops.append({"op": "setbuf", "i": ncopy, "lead": q_of(frac(k * dt)), "trail": q_of(frac(2 * dt))})
+            hs.append(ops)
+    return hs
+
+
+def constructor_suite():
+    """constructor pad / truncate branches x argument typings (float array, list, int array, list of ints) for the
+    time grid and for the values (integer-typed values where they are shorter than the grid), each followed by a copy,
+    a whole-sample shift and a sum with itself"""
+    hs = []
+    grid = [[k, 1] for k in range(-2, 4)]
+    for vals in ([[1, 2], [-3, 4], [5, 2]], [[7, 1], [-2, 1]], [[1, 4]] * 6, [[1, 2]] * 8, []):
+        for ttype in (None, "list", "int", "intlist"):
+            for vtype in (None, "list") + (("int", "intlist") if all(v[1] == 1 for v in vals) and len(vals) < len(grid) and vals else ()):
+                op = {"op": "mk", "cls": 0, "sub": False, "ta": 0, "va": 1, "vt": 1, "vtform": "enum", "fn": ["affine", [1, 1], [0, 1], [0, 1]]}
+                if ttype:
+                    op["ttype"] = ttype
+                if vtype:
+                    op["vtype"] = vtype
+                hs.append([{"op": "newarr", "xs": grid}, {"op": "newarr", "xs": vals}, op, {"op": "copy", "i": 0},
+                           {"op": "shift", "i": 0, "q": [2, 1], "qform": "int"}, {"op": "add", "i": 1, "j": 1},
+                           {"op": "mk", "cls": 2, "sub": False, "ta": 0, "va": 0, "vt": 0, "vtform": "enum", "fn": ["affine", [1, 2], [1, 1], [0, 1]],
+                            **({"ttype": ttype} if ttype else {})},
+                           {"op": "mk", "cls": 1, "sub": False, "ta": 0, "va": 0, "vt": 0, "vtform": "enum", "fn": ["affine", [1, 2], [1, 1], [0, 1]],
+                            **({"ttype": ttype} if ttype else {})}])
+    return hs
+
+
 def load_corpus():
     d = os.path.join(common.ROOT, "corpus", "C04")
     out = []
@@ -1294,6 +1439,12 @@ def run(ctx):
     for ops in ex:
         o, st, comp = execute(None, fixed_ops=ops)
         histories.append(("pairs", o, st, comp))
+    for ops in regrid_suite():
+        o, st, comp = execute(None, fixed_ops=ops)
+        histories.append(("regrid-suite", o, st, comp))
+    for ops in constructor_suite():
+        o, st, comp = execute(None, fixed_ops=ops)
+        histories.append(("constructor-suite", o, st, comp))
     near = exhaustive_near()
     n_refused = 0
     for ops in near:
@@ -1303,7 +1454,7 @@ def run(ctx):
     ctx.oblige("corr:minutely-different-grids-refused", n_refused == 2 * len(near),
                "%d of %d sums over minutely different grids were refused" % (n_refused, 2 * len(near)))
     ctx.extra["near_equal_grid_pairs"] = {"histories": len(near), "refused_sums": n_refused, "expected_refused": 2 * len(near)}
-    n_rand = ctx.n(100, 4000)
+    n_rand = ctx.n(90, 3500)
     for n in range(n_rand):
         biased = (n % 4 == 1)
         o, st, comp = execute(None, rng=rng, max_ops=rng.choice([10, 18] if biased else [8, 15, 30, 30]), malformed=(n % 6 == 5),
